@@ -15,7 +15,10 @@ SPEC = {
         ("_build_node_path(choice is a function of the listing order: first of equals)", 'final_choice', r'first'),
         ("_match_states(every call of next() gets segment objects of its own: next() writes into them)", 'match_states', '^fresh:'),
         ("non-emitting search, inner levels(segment objects per call)", 'ne_inner', '^fresh:'),
-        ("non-emitting search, link to the next observation(segment objects per call)", 'ne_end', '^fresh:')],
+        ("non-emitting search, link to the next observation(segment objects per call)", 'ne_end', '^fresh:'),
+        ("order independence of the expansion: for EVERY predecessor and EVERY neighbour the candidate is generated, and candidates for the same state are merged by keep-the-better (never first-come-first-served)", 'match_states', r'^(cover:|insert:)'),
+        ("order independence of the non-emitting step: one call per admissible neighbour of every live entry; filed or merged through update()", 'ne_inner', r'^(ne-inner:one-non|file:)'),
+        ("order independence of the link to the next observation", 'ne_end', r'^ne-end:(one-emitting|worse|new-state|dropped|next-column)')],
     'bounded': [
         ('map-order-permutations', suites.case_C10, 1500, 25000, RULE + '; ' + 'non-trivial = >= 3 nodes or an exact tie in some column', '')],
 }
